@@ -87,6 +87,10 @@ def transformers(tier):
             for pres in (False, True):
                 out.append(('replace', rx, rep, pres, at))
     out += [('strip', None), ('strip', 'space'), ('strip', 'new-lines'), ('case', 'upper'), ('case', 'lower'), ('identity',)]
+    # line-number ranges (C13 explores them in depth): single, several, and head / tail ranges that overlap, touch or leave a gap
+    for rs in ([('l', 2)], [('u', 2)], [('p', 1), ('p', -1)], [('u', 2), ('l', -2)], [('u', 1), ('f', 3, 4), ('l', -1)], [('u', -3), ('l', -2)], [('u', 1), ('l', 2)],
+               [('u', 2), ('l', 3)], [('l', 3), ('u', 1)], [('u', 1), ('l', 3)], [('f', 2, 3), ('p', 2)], [('l', 3), ('p', 4)], [('l', -2), ('p', 1)]):
+        out.append(('line-nums', rs))
     for rx in ('a', 'B$', '^$', '.', r'\s', 'a|B', '', 'a|aB', '.*?'):
         out += [('grep', False, rx), ('grep', True, rx)]
     for lm in LM_SIMPLE:
@@ -369,7 +373,7 @@ def _run_cli(res, kind, t, case):
                 src = R.render_tt(ast, ctx, simple=True)
                 exp = R.ev_tt(ast, t)
                 name = ctx.file_for(exp)
-                if j % 2 == 0:
+                if j % 2 == 0 or '-line-nums' in src:  # (LINE-NUMBER-RANGEs extend to the end of the line: nothing may follow them on it)
                     setup_extra.append('file out%d.txt = -contents-of -rel-act model.txt -transformed-by %s' % (j, src))
                     lines_.append('contents out%d.txt : equals -contents-of -rel-act %s' % (j, name))
                 else:
